@@ -90,7 +90,7 @@ def requirements(tier):
         "matrix:qsw": 3000 * k, "matrix:tnw": 3000 * k, "matrix:hyperbolic": 1000 * k, "matrix:elliptic": 1000 * k,
         "matrix:expanded": 1000 * k,
         "frame:orientation-None": 100 * k, "frame:orientation-QSW": 100 * k, "frame:orientation-TNW": 100 * k,
-        "frame:reference-orbit-about-the-moon": 20 * k, "frame:origin": 900 * k, "frame:roundtrip": 900 * k, "frame:axes": 900 * k, "frame:moving": 120 * k, "frame:static": 20 * k,
+        "dkep:keplerian-continuous-man": 2000 * k, "frame:reference-is-an-ephemeris": 15 * k, "frame:reference-orbit-about-the-moon": 20 * k, "frame:origin": 900 * k, "frame:roundtrip": 900 * k, "frame:axes": 900 * k, "frame:moving": 120 * k, "frame:static": 20 * k,
         "mandv:impulsive": 1500 * k, "mandv:continuous": 1500 * k, "mandv:tag-QSW": 500 * k, "mandv:tag-TNW": 500 * k, "mandv:tag-None": 500 * k,
         "mandv:hyperbolic": 300 * k, "mandv:duration-multi-day": 200 * k, "mandv:duration-whole-days": 200 * k, "mandv:check-tiling": 1000 * k,
         "dkep:judged": 3000 * k, "dkep:da": 1000 * k, "dkep:di": 1000 * k, "dkep:dOmega": 1000 * k, "dkep:realised": 2000 * k,
@@ -339,7 +339,17 @@ def case_frames(ctx, job, idx, rng, st):
     else:
         ref = StateVector(state, epoch, "cartesian", ref_frame_name)
     mech = ""
-    if rng.random() < 0.3:
+    T = 2 * math.pi * math.sqrt(k["a"] ** 3 / mu)
+    as_ephem = moving and propagator in ("Kepler", "J2") and rng.random() < 0.25
+    if as_ephem:
+        # the reference is an ephemeris (orbit2frame / as_frame take "an Orbit or Ephem"): the frame follows the interpolated
+        # trajectory, which is what "that orbit" is then
+        from beyond.dates import timedelta as _td
+
+        ref = ref.ephem(start=epoch - _td(seconds=1.2 * T), stop=_td(seconds=2.4 * T), step=_td(seconds=T / 60))
+        ctx.count("frame:reference-is-an-ephemeris")
+        descr["reference"] = "Ephem of 145 points over 2.4 periods"
+    if rng.random() < 0.3 and not as_ephem:
         ref = ref.copy(form=rng.choice(["keplerian", "spherical", "equinoctial"]))
         ctx.count("frame:ref-noncartesian")
         if not moving:
@@ -347,7 +357,6 @@ def case_frames(ctx, job, idx, rng, st):
             mech = "C17/orbit-frame-static-noncartesian-ref"
             ctx.count("frame:static-noncartesian-ref")
     parent = get_frame(parent_name)
-    T = 2 * math.pi * math.sqrt(k["a"] ** 3 / mu)
     offsets = [0, int(rng.uniform(-1, 1) * T * 1e6), int(rng.uniform(-1, 1) * T * 1e6)]
     for ori in (None, "QSW", "TNW"):
         name = f"V17{job['name'].replace('-', '')}x{idx}{ori or 'None'}"
@@ -653,6 +662,22 @@ def case_dkep(ctx, job, idx, rng, st):
     nd = float(np.linalg.norm(dv_tnw))
     ctx.resid("dkep:keplerian-man:vector", float(np.linalg.norm(dv_in - R.T @ dv_tnw)), 1e-12 * nd + 1e-300, key="C17/keplerian-impulsive-dv-axes",
               witness=dict(w, got=dv_in, expected=R.T @ dv_tnw), msg="KeplerianImpulsiveMan.dv is not the dkep2dv vector along the TNW axes")
+    # KeplerianContinuousMan: the same increments spread over a duration -- acceleration x duration is that delta-v
+    try:
+        from beyond.dates import timedelta as _td
+        from beyond.orbits.man import KeplerianContinuousMan
+
+        dur = rng.choice([60.0, 600.0, 5400.0, 86400.0, 2.5 * 86400.0, 90.5])
+        cman = KeplerianContinuousMan(epoch, _td(seconds=dur), da=da, di=di, dOmega=dO)
+        acc = np.array(cman.accel(orb), float)
+        ctx.count("dkep:keplerian-continuous-man")
+        ctx.resid("dkep:keplerian-continuous-man:accel x duration", float(np.linalg.norm(acc * dur - R.T @ dv_tnw)), 1e-12 * nd + 1e-300,
+                  key="C17/keplerian-continuous-accel-times-duration-is-not-the-delta-v", witness=dict(w, duration_s=dur, accel=acc, expected_dv=R.T @ dv_tnw),
+                  msg=f"KeplerianContinuousMan over {dur} s: accel x duration differs from the dkep2dv vector by {np.linalg.norm(acc * dur - R.T @ dv_tnw):.3e} m/s")
+        ctx.expect(cman.check(epoch + _td(seconds=dur / 2)) and not cman.check(epoch + _td(seconds=dur)) and not cman.check(epoch - _td(seconds=1)),
+                   "C17/continuous-check-window", dict(w, duration_s=dur), "KeplerianContinuousMan.check is not true exactly on [start, stop[")
+    except Exception as exc:
+        ctx.violation("C17/keplerian-continuous-man-raises", dict(w, exc=repr(exc)), f"KeplerianContinuousMan raised {exc!r}")
     if idx % 5 == 0:
         # the same orbit handed over in another form (the argument is an Orbit; ImpulsiveMan.dv converts it)
         form = rng.choice(["keplerian", "spherical", "equinoctial"])
